@@ -908,3 +908,8 @@ mod tests {
         assert!(count <= MAX_BATCH_WORKERS);
     }
 }
+
+#[cfg(kani)]
+mod verif_kani {
+    include!(concat!(env!("REPE_VERIF_KANI"), "/client.rs"));
+}
